@@ -231,13 +231,13 @@ func verifDir() string {
 // Main is the entry point of every worker binary.
 func Main(p Prop) {
 	var (
-		tier    = flag.String("tier", "quick", "quick|thorough")
-		child   = flag.String("child", "", "batch json file (child mode)")
-		logf    = flag.String("log", "", "event log (child mode)")
-		replay  = flag.String("replay", "", "replay file")
-		onlyB   = flag.String("only", "", "run only batches whose name has this prefix")
-		par     = flag.Int("par", 0, "max total procs")
-		noEvid  = flag.Bool("no-evidence", false, "do not write the evidence file")
+		tier     = flag.String("tier", "quick", "quick|thorough")
+		child    = flag.String("child", "", "batch json file (child mode)")
+		logf     = flag.String("log", "", "event log (child mode)")
+		replay   = flag.String("replay", "", "replay file")
+		onlyB    = flag.String("only", "", "run only batches whose name has this prefix")
+		par      = flag.Int("par", 0, "max total procs")
+		noEvid   = flag.Bool("no-evidence", false, "do not write the evidence file")
 		listOnly = flag.Bool("list", false, "list batches")
 	)
 	flag.Parse()
